@@ -528,6 +528,17 @@ def harness(name, R, quant):
                 ctx.note("nonempty", 1)
                 v["supported-query-is-translated"] = sp["expect"] == "accept-or-reject"
                 return v
+            # ---- an accepted query is a statement a database can run: every bound parameter is a database value ----
+            try:
+                params = list(tr.sql_query.compile().params.values())
+            except Exception as e:
+                params = ["<statement does not compile: %s>" % type(e).__name__, object()]
+            flat = [x for p_ in params for x in (p_ if isinstance(p_, (list, tuple, set, frozenset)) else [p_])]
+            bad = [x for x in flat if not (is_sym(x) or x is None or isinstance(x, (int, float, str, bytes, bool)) or type(x).__module__ in ("datetime", "decimal", "uuid") or hasattr(x, "value") and type(x).__mro__[-2].__name__ == "Enum")]
+            if bad:
+                ctx.observe("statement binds %s" % ", ".join(sorted(type(x).__name__ for x in bad))[:120])
+                v["unsupported-queries-are-rejected-with-EQLTranslationError"] = False
+                return v
             # ---- in memory: the real engine on the same data ----
             mem, mem_exc = [], None
             try:
